@@ -6,6 +6,7 @@ pub mod numgrid;
 pub mod par;
 pub mod props;
 pub mod refnum;
+pub mod reflex;
 pub mod refsem;
 pub mod refsyn;
 pub mod report;
